@@ -338,10 +338,22 @@ func RunE3(r *Run) {
 			r.Logf("bulk-create inst%d %d keys", i, n)
 		case 9, 10, 11: // identities
 			j := r.Choose("inst2", len(w.inst))
+			// one options value for both calls (the keystore field set before each): what the caller passed is
+			// still what the caller passed afterwards
+			opts := &idp.CreateIdentityOptions{ID: id, Type: "orbitdb"}
+			reuse := r.Choose("reuse-identity-options", 2) == 0
 			mk := func(kk *ks.Keystore) *idp.Identity {
-				ident, err := idp.CreateIdentity(w.ctx, &idp.CreateIdentityOptions{Keystore: kk, ID: id, Type: "orbitdb"})
+				o := opts
+				if !reuse {
+					o = &idp.CreateIdentityOptions{ID: id, Type: "orbitdb"}
+				}
+				o.Keystore = kk
+				ident, err := idp.CreateIdentity(w.ctx, o)
 				if err != nil {
 					r.Violate("C20:create-identity", "CreateIdentity(%q) failed without a fault: %v", id, err)
+				}
+				if o.ID != id || o.Type != "orbitdb" || o.Keystore != kk {
+					r.Violate("C20:caller-options-modified", "CreateIdentity(%q) changed the options value its caller passed: id %q type %q", id, o.ID, o.Type)
 				}
 				return ident
 			}
